@@ -129,6 +129,10 @@ def run_case(ctx, case):
     if case["shuffle"] is not False:
         if case["shuffle_where"] == "ctor":
             ctor["shuffle"] = case["shuffle"]
+            if not uses_sow_cases and case["pseed"] % 2:
+                # sow_combos(shuffle=None): no new setting at the sow call, the constructor's one stays in force
+                shuffle_at_sow = "keep"
+                ctx.count("grids_sown_with_the_constructors_shuffle_kept")
         elif uses_sow_cases:
             shuffle_attr = case["shuffle"]      # sow_cases has no shuffle argument
         else:
